@@ -57,8 +57,9 @@ type xNode struct {
 }
 
 type xGen struct {
-	budget int
-	small  bool // restricted leaf alphabet
+	budget  int
+	small   bool // restricted leaf alphabet
+	unglued bool // some compound's second part cannot be glued textually
 }
 
 func (g *xGen) leaf() *xNode {
@@ -80,6 +81,9 @@ func (g *xGen) expr() *xNode {
 	n := &xNode{kind: xBraced + k - 1}
 	n.a = g.expr()
 	n.b = g.expr()
+	if n.kind == xCompound && !xJoinable(n.b) {
+		g.unglued = true
+	}
 	if n.kind == xIndex {
 		n.idx = vrt.Choice("index", len(xIndexSrc))
 	}
@@ -92,6 +96,8 @@ func xJoinable(n *xNode) bool {
 	switch n.kind {
 	case xLitA, xLit1, xLit2, xList, xIndex:
 		return false
+	case xCompound:
+		return xJoinable(n.a)
 	}
 	return true
 }
@@ -382,7 +388,8 @@ func (r *xRef) eval(n *xNode) []any {
 func VerifC15Values(budget, small int) {
 	g := &xGen{budget: budget, small: small == 1}
 	root := g.expr()
-	if root.kind == xCompound && !xJoinable(root.b) {
+	if g.unglued {
+		// the source of a compound would parse as something else (a$s vs $sa)
 		return
 	}
 	code := "var s = S; var l = [p q]; var e = []; var t = $true; var f = $false; var n = $nil\nput " + xRender(root)
